@@ -5,7 +5,7 @@
 package subscribe
 
 // Every function under contract in this package also serves the properties that depend on the whole package.
-//@ package-props C01 C04 C05 C06 C07 C08 C12
+//@ package-props C01 C04 C05 C06 C07 C08 C11 C12
 
 // The per-RPC ACL: its answer for a target is recorded in the ghost pair
 // (lastChecked, lastVerdict) declared with the gRPC stubs; Send requires it.
@@ -273,3 +273,33 @@ package subscribe
 //@   props C08 C06 C12
 //@   requires c.q != nil && c.q.closed != nil && c.q.inserted != nil && !closed(c.q.inserted)
 //@   modifies *
+
+// ---- server construction: each option sets exactly its own field; the send timeout defaults to one minute; the server
+// serves the cache it was given through a matcher of its own.
+//@ func WithTimeout$1
+//@   props C08 C12
+//@   requires o != nil
+//@   modifies o.timeout
+//@   ensures [timeout-as-given C08] o.timeout == t
+//@ func WithACL$1
+//@   props C07 C12
+//@   requires o != nil
+//@   modifies o.acl
+//@   ensures [acl-as-given C07] o.acl == a
+//@ func WithoutDupReport$1
+//@   props C08 C12
+//@   requires o != nil
+//@   modifies o.noDupReport
+//@   ensures [duplicate-reporting-off C08] o.noDupReport
+//@ func (*aclStub).Check
+//@   props C07 C12
+//@   ensures res0
+//@ func type Option (o)
+//@   requires o != nil
+//@   modifies heap(options.timeout), heap(options.acl), heap(options.noDupReport), heap(options.stats), heap(options.flowControlTest), heap(options.clientStatsTest), heap(options.updateSubsCountEnterTest), heap(options.updateSubsCountExitTest)
+//@   note an option only writes fields of the option record it is handed
+//@ func NewServer
+//@   props C04 C07 C08 C12
+//@   modifies *
+//@   ensures [serves-the-given-cache-through-its-own-matcher C04] res1 == nil && res0 != nil && fresh(res0) && res0.c == c && res0.m != nil && fresh(res0.m)
+//@   ensures [a-send-timeout-is-always-set C08] res0.o.timeout != 0
